@@ -523,6 +523,11 @@ PLANTS = [
     P("un-forward-first-operand", "E", "[0 for _i in [$zlate]]", "undefined", fwd),
     P("un-forward-default", "E", "lambda v=$zlate: v", "undefined", fwd),
     P("un-forward-lambda-ok", "E", "lambda: $zlate", "undefined", never),
+    # a first binding whose right-hand side mentions the name being bound: the right-hand side is resolved first
+    P("un-self-assign", "S", "zself = $zself + 1", "undefined", lambda s, o: s.top and o.GR),
+    P("un-self-unpack", "S", "zsa, zsb = 1, $zsa", "undefined", lambda s, o: s.top and o.GR),
+    P("un-self-list-unpack", "S", "[zsc, zsd] = [$zsd, 0]", "undefined", lambda s, o: s.top and o.GR),
+    P("un-self-universal-ok", "S", "ord = $ord", "undefined", never),
     P("un-forward-comp-ok", "E", "[$zlate for _i in []]", "undefined", never),
     # set
     P("set", "E", "$set([1])", "set", lambda s, o: not o.Set, None, ["noset"]),
